@@ -358,6 +358,7 @@ func runC13(cfg *runCfg) error {
 	dist := newDistinct()
 	res.Rule = "histories of 3-18 calls: custom style creation, removal of unused styles, headings of all levels, paragraphs styled with any registered style, TOC generation, list items, notes, table style templates, save+check, save+reopen, rendering as a document template; from New() or from a foreign package with its own styles (and numbering); every check reads styles.xml / numbering.xml / document.xml of the saved package independently; non-trivial = at least 3 content calls; distinct by hash of the op list"
 	var coqCases []string
+	perClass := map[string]int{}
 	for ci := 0; ci < cfg.n; ci++ {
 		cr := r.fork()
 		coq, ops, fails, nOK := runRefsCase(cr)
@@ -375,7 +376,8 @@ func runC13(cfg *runCfg) error {
 			}
 			seen[f.Clause+f.Class] = true
 			f.Case, f.CaseID = map[string]interface{}{"seed": cfg.seed, "case": ci, "ops": ops}, ci
-			if len(res.OracleFailures) < 60 {
+			perClass[f.Clause+"/"+f.Class]++
+			if perClass[f.Clause+"/"+f.Class] <= 6 {
 				res.OracleFailures = append(res.OracleFailures, f)
 			}
 		}
